@@ -714,3 +714,47 @@ Proof.
   split; [reflexivity|]. split; [reflexivity|]. split; [|split; [apply len_pad_text|reflexivity]].
   intros Hw. rewrite pad_text_small by exact Hw. reflexivity.
 Qed.
+
+(* ---- final round: operator== is exactly "same length and same slots" *)
+Lemma list_eqb_eq a : forall b, list_eqb a b = true <-> a = b.
+Proof.
+  induction a as [|x a IH]; intros [|y b]; cbn; split; intros H; try discriminate; auto.
+  - apply andb_prop in H as (H1 & H2). apply N.eqb_eq in H1. apply IH in H2. congruence.
+  - inversion H; subst. rewrite N.eqb_refl. cbn. apply IH. reflexivity.
+Qed.
+
+Lemma equality_exact_full :
+  forall fresh slots ops i j, Forall op_ok ops ->
+  exists s, crun fresh (init_st slots) ops = Ok s /\
+    (is_live s i = true -> is_live s j = true ->
+     exists li lj, cquery s (QGetStr i) = Ok (ABytes li) /\ cquery s (QGetStr j) = Ok (ABytes lj) /\
+       (cquery s (QEq i j) = Ok (ABool true) <-> li = lj) /\
+       (cquery s (QEq i j) = Ok (ABool false) <-> li <> lj) /\
+       (cquery s (QNe i j) = Ok (ABool true) <-> li <> lj)).
+Proof.
+  intros fresh slots ops i j H. destruct (reach fresh slots ops H) as (s & E & I & _).
+  exists s. split; [exact E|]. intros Li Lj.
+  exists (contents (aget (abs s) i)), (contents (aget (abs s) j)).
+  rewrite !(query_correct s _ I). unfold aquery. rewrite !a_live_abs, Li, Lj. cbn [andb].
+  split; [reflexivity|]. split; [reflexivity|].
+  destruct (list_eqb (contents (aget (abs s) i)) (contents (aget (abs s) j))) eqn:X.
+  - apply list_eqb_eq in X. cbn [negb]. repeat split; intros; try congruence; try discriminate; auto.
+  - assert (N : contents (aget (abs s) i) <> contents (aget (abs s) j)).
+    { intros Eq. apply list_eqb_eq in Eq. congruence. }
+    cbn [negb]. repeat split; intros; try congruence; try discriminate; auto.
+Qed.
+
+(* documented-format text, items as atoi reads them *)
+Lemma sfs_documented_general_step :
+  forall fresh s i items, inv s -> is_live s i = true ->
+  forallb gitem_ok items = true -> join_items (map gitem_text items) <> [] ->
+  exists s', cstep fresh s (OSetFromString i (join_items (map gitem_text items))) = Ok (s', RBool true) /\
+             inv s' /\ aget (abs s') i = Some (take 512 (map gitem_val items)).
+Proof.
+  intros fresh s i items I Li Hok Hne.
+  destruct (step_correct fresh s (OSetFromString i (join_items (map gitem_text items))) I Logic.I)
+    as (s' & r & E' & I' & A' & R').
+  unfold astep in A', R'. rewrite a_live_abs, Li in A', R'. cbn [fst snd] in A', R'. subst r.
+  exists s'. split; [exact E'|]. split; [exact I'|]. rewrite A', sfs_documented_general by auto.
+  apply aget_upd_eq. apply is_live_getb in Li as (b & Hb'). eapply live_lt; eauto.
+Qed.
